@@ -169,6 +169,15 @@ class ArityChecker(MultiFunction):
         """Apply to list_tensor."""
         args = set(chain(*ops))
         if args:
+            # A component without arguments next to components with
+            # arguments makes the tensor affine unless it is zero:
+            # allow <v[0], 0, v[1]> but not <v[0], f>
+            for op, component in zip(ops, o.ufl_operands):
+                if not op and not isinstance(component, Zero):
+                    raise ArityMismatch(
+                        "Listtensor components without form arguments must be zero "
+                        f"when other components depend on form arguments, found {component}."
+                    )
             # Check that each list tensor component has the same
             # argument numbers (ignoring parts)
             numbers = set(tuple(sorted(set(arg[0].number() for arg in op))) for op in ops)
